@@ -59,6 +59,14 @@ def rev : Ordering → Ordering
 def cmp3Str (c : α → α → Ordering) (a b d : α) : String :=
   s!"{ordStr (c a b)} {ordStr (c b a)} {ordStr (c b d)} {ordStr (c a d)}"
 
+/-- the part of the Montgomery configuration that C19's functions read (`n`, `p`, `INV`; `R` only for `is_one`),
+    computed as `Mont.mkCfg` computes it — without `R2`, which dominates the cost of `mkCfg` -/
+def cfgOf (n pv : Nat) (withR : Bool) : Mont.MontCfg :=
+  let p := toLimbs n pv
+  { n := n, p := p, inv := Mont.computeInv (p.headD 0),
+    r := if withR then toLimbs n (Mont.montgomeryR n pv) else [], r2 := [],
+    spare := false, noCarry := false, derived := true }
+
 /-! ### extension towers -/
 
 def parseShape (s : String) : Option (List Nat) := mapM? parseHex? (s.splitOn ".")
@@ -90,14 +98,30 @@ def teStream : Outcome (F × F) → String
   | .ok k => hexBytes (teKeyStream enc k)
   | .panic => "panic"
 
+/-- branch labels (generator-quality table of the check) -/
+def swEqTag (p q : SW.Jac F) : String :=
+  if p.isZero then (if q.isZero then "id-id" else "id-pt")
+  else if q.isZero then "pt-id"
+  else if p.x * sq q.z ≠ q.x * sq p.z then "x-differs"
+  else if p.y * (sq q.z * q.z) ≠ q.y * (sq p.z * p.z) then "y-differs"
+  else if p = q then "identical" else "rescaled"
+def swNormTag (p : SW.Jac F) : String := if p.isZero then "id" else if p.z = 1 then "z1" else "inv"
+def teEqTag (p q : TE.Ext F) : String :=
+  if p.isZero then (if q.isZero then "id-id" else "id-pt")
+  else if q.isZero then "pt-id"
+  else if p.x * q.z ≠ q.x * p.z then "x-differs"
+  else if p.y * q.z ≠ q.y * p.z then "y-differs"
+  else if p = q then "identical" else "rescaled"
+def teNormTag (p : TE.Ext F) : String := if p.isZero then "id" else if p.z = 1 then "z1" else "inv"
+
 def runSW (op : String) (args : List String) (impl : String) : Option (String × String) := do
   match op, args with
   | "pteq", [_, p, q] =>
     let p ← DrvC03.pJac io p; let q ← DrvC03.pJac io q
-    some (boolStr (swEq p q), vs impl (boolStr (decide (SW.toAff p = SW.toAff q))))
+    some (boolStr (swEq p q) ++ " @" ++ swEqTag p q, vs impl (boolStr (decide (SW.toAff p = SW.toAff q))))
   | "pthash", [_, p, q] =>
     let p ← DrvC03.pJac io p; let q ← DrvC03.pJac io q
-    some (swStream enc (swHashKey p) ++ " " ++ swStream enc (swHashKey q),
+    some (swStream enc (swHashKey p) ++ " " ++ swStream enc (swHashKey q) ++ " @" ++ swNormTag p ++ "," ++ swNormTag q,
           hashVerdict (decide (SW.toAff p = SW.toAff q)) impl)
   | "ptmixedeq", [_, a, p] =>
     let a ← DrvC03.pSWAff io a; let p ← DrvC03.pJac io p
@@ -128,11 +152,12 @@ def runTE (op : String) (args : List String) (impl : String) : Option (String ×
   | "pteq", [_, p, q] =>
     let p ← DrvC03.pExt io p; let q ← DrvC03.pExt io q
     let pa ← TE.toAff p; let qa ← TE.toAff q
-    some (boolStr (teEq p q), vs impl (boolStr (decide (pa = qa))))
+    some (boolStr (teEq p q) ++ " @" ++ teEqTag p q, vs impl (boolStr (decide (pa = qa))))
   | "pthash", [_, p, q] =>
     let p ← DrvC03.pExt io p; let q ← DrvC03.pExt io q
     let pa ← TE.toAff p; let qa ← TE.toAff q
-    some (teStream enc (teHashKey p) ++ " " ++ teStream enc (teHashKey q), hashVerdict (decide (pa = qa)) impl)
+    some (teStream enc (teHashKey p) ++ " " ++ teStream enc (teHashKey q) ++ " @" ++ teNormTag p ++ "," ++ teNormTag q,
+          hashVerdict (decide (pa = qa)) impl)
   | "ptmixedeq", [_, a, p] =>
     let a ← DrvC03.pTEAff io a; let p ← DrvC03.pExt io p
     let pa ← TE.toAff p
@@ -206,7 +231,7 @@ def run (op : String) (args : List String) (impl : String) : Option (String × S
     match args with
     | n :: p :: rest =>
       let n ← parseHex? n; let pv ← parseHex? p
-      let c := Mont.mkCfg true n pv
+      let c := cfgOf n pv (op == "fpzero")
       let rinv := Spec.modInv (B ^ n % pv) pv
       let toN (x : Nat) : Nat := (x * rinv) % pv          -- Montgomery → standard residue
       let L (x : Nat) := toLimbs n x
@@ -233,7 +258,7 @@ def run (op : String) (args : List String) (impl : String) : Option (String × S
     match args with
     | sh :: n :: p :: rest =>
       let sh ← parseShape sh; let n ← parseHex? n; let pv ← parseHex? p
-      let c := Mont.mkCfg true n pv
+      let c := cfgOf n pv (op == "extzero" || op == "pairingzero")
       let rinv := Spec.modInv (B ^ n % pv) pv
       let toN (x : Nat) : Nat := (x * rinv) % pv
       let el (s : String) : Option (Ext × List Nat) := do
@@ -281,7 +306,7 @@ def run (op : String) (args : List String) (impl : String) : Option (String × S
     match args with
     | n :: p :: kind :: rest =>
       let n ← parseHex? n; let pv ← parseHex? p
-      let c := Mont.mkCfg true n pv
+      let c := cfgOf n pv false
       let rinv := Spec.modInv (B ^ n % pv) pv
       let toN (x : Nat) : Nat := (x * rinv) % pv
       let L (x : Nat) := toLimbs n x
